@@ -1,6 +1,5 @@
 //@attach yarel/src/vm.rs inside=string_store
 //@harness name=store_get_after_insert props=C11 obligation=string_store/get_insert_bounded_standin kind=bounded bound="capacity-4 table, up to 2 interned one-byte strings (and a third never interned) with symbolic hashes in 0..8 (every home-slot configuration, colliding and distinct hashes, probe chains that wrap around the end of the table); loops unwound 6" doc="bounded stand-in for the Verus contracts of get/insert/find_index on the REAL functions (whatever their syntax): every inserted key is found again by get and yields the very root inserted; a key never inserted is not found"
-//@harness name=store_resize_keeps_entries tier=thorough props=C11 obligation=string_store/resize_bounded_standin kind=bounded bound="capacity-4 table, 4 interned one-byte strings with symbolic hashes in 0..8: the 4th insert doubles the table; loops unwound 10" doc="bounded stand-in across a resize: after the table has grown every previously interned key is still found and yields the very root inserted (roots are moved, not cloned)"
 use super::*;
 use crate::memory::verif_kani_memory::KBox;
 use crate::memory::Gc;
@@ -36,32 +35,5 @@ fn store_get_after_insert() {
     } else {
         assert!(found.is_none());
     }
-    std::mem::forget(store);
-}
-
-#[kani::proof]
-#[kani::unwind(10)]
-fn store_resize_keeps_entries() {
-    let names = ["a", "b", "c", "d"];
-    let h: [u64; 4] = kani::any();
-    kani::assume(h[0] < 8 && h[1] < 8 && h[2] < 8 && h[3] < 8);
-    let b0 = KBox::new(ObjString::new(Gc::dangling(), names[0], h[0]));
-    let b1 = KBox::new(ObjString::new(Gc::dangling(), names[1], h[1]));
-    let b2 = KBox::new(ObjString::new(Gc::dangling(), names[2], h[2]));
-    let b3 = KBox::new(ObjString::new(Gc::dangling(), names[3], h[3]));
-    let mut store = ObjStringStore::new();
-    store.insert(b0.gc().as_root());
-    store.insert(b1.gc().as_root());
-    store.insert(b2.gc().as_root());
-    store.insert(b3.gc().as_root()); // size + 1 > 3: the table doubles first
-    let q: usize = kani::any();
-    kani::assume(q < 4);
-    let want = if q == 0 { b0.gc() } else if q == 1 { b1.gc() } else if q == 2 { b2.gc() } else { b3.gc() };
-    match store.get((h[q], names[q])) {
-        Some(r) => assert!(r.as_gc() == want),
-        None => assert!(false),
-    }
-    // every root is still counted exactly once by the table (moved, not cloned)
-    assert!(b0.roots() == 1 && b1.roots() == 1 && b2.roots() == 1 && b3.roots() == 1);
     std::mem::forget(store);
 }
